@@ -26,7 +26,7 @@ func C13(tier string) {
 	r.NotExhaustive()
 	steps, labSteps := 64, 48
 	if tier == "thorough" {
-		steps, labSteps = 256, 160
+		steps, labSteps = 400, 200
 	}
 	whites := []ciexyz.Color{ciexyz.D50, ciexyz.D65, {X: 1, Y: 1, Z: 1}, {X: 0.2, Y: 3, Z: 0.01}, {X: 0.9, Y: 1, Z: 0.3}, {X: 1.2, Y: 1, Z: 1.5}, {X: 0.5, Y: 0.5, Z: 0.5}, {X: 2, Y: 2, Z: 2}}
 	geo := geoAxis()
